@@ -456,6 +456,10 @@ def _norm_index(ex, seq, idx, st, ctx, node, what):
 def new_symlist(st, elem, prefix):
     """Python list of symbolic length: parallel z3 arrays + a z3 Int length.  elem 'real' (one column 'v') or 'piece'
     (interpolant objects: columns t0, t1, id)."""
+    if elem == "event":
+        cols = {"t": z3.Array(fresh_name(prefix + "_t"), z3.IntSort(), z3.RealSort()), "y": z3.Array(fresh_name(prefix + "_y"), z3.IntSort(), z3.RealSort()),
+                "ev": z3.Array(fresh_name(prefix + "_ev"), z3.IntSort(), z3.IntSort())}
+        return st.new_obj("symlist", "symlist", fields=dict(len=z3.Int(fresh_name(prefix + "_len")), cols=cols, elem=elem))
     cols = {"v": z3.Array(fresh_name(prefix + "_v"), z3.IntSort(), z3.RealSort())} if elem == "real" else \
         {"t0": z3.Array(fresh_name(prefix + "_t0"), z3.IntSort(), z3.RealSort()), "t1": z3.Array(fresh_name(prefix + "_t1"), z3.IntSort(), z3.RealSort()),
          "id": z3.Array(fresh_name(prefix + "_id"), z3.IntSort(), z3.IntSort())}
@@ -463,10 +467,27 @@ def new_symlist(st, elem, prefix):
     return st.new_obj("symlist", "symlist", fields=dict(len=n, cols=cols, elem=elem))
 
 
+def symlist_from_items(st, items, elem, prefix="lst"):
+    """The same python list, re-represented with a symbolic-length encoding (length is the literal len(items))."""
+    ref = new_symlist(st, elem, prefix)
+    o = st.obj(ref)
+    o.fields["len"] = z3.IntVal(0)
+    for x in items:
+        new = _symlist_elem_cols(o, x, st)
+        n = o.fields["len"]
+        o.fields["cols"] = {k: z3.Store(a, n, new[k]) for k, a in o.fields["cols"].items()}
+        o.fields["len"] = z3.IntVal(n.as_long() + 1)
+    return ref
+
+
 def _symlist_elem_cols(o, x, st):
     if o.fields["elem"] == "real":
         return {"v": to_real(x)}
     xf = st.obj(x).fields
+    if o.fields["elem"] == "event":
+        ev = xf["event"]
+        evid = ev.attrs.get("id") if isinstance(ev, UFunc) else xf.get("ev")
+        return {"t": to_real(xf["t"]), "y": to_real(xf["y"]), "ev": to_z3(evid)}
     return {"t0": to_real(xf["t0"]), "t1": to_real(xf["t1"]), "id": to_z3(xf["id"])}
 
 
@@ -482,6 +503,8 @@ def _symlist_get(ex, v, idx, st, ctx, node):
     if o.fields["elem"] == "real":
         return z3.Select(o.fields["cols"]["v"], j)
     c = o.fields["cols"]
+    if o.fields["elem"] == "event":
+        return st.new_obj("StateTuple", fields=dict(t=z3.Select(c["t"], j), y=z3.Select(c["y"], j), ev=z3.Select(c["ev"], j), event=None))
     return st.new_obj("CubicHermiteInterp", fields=dict(t0=z3.Select(c["t0"], j), t1=z3.Select(c["t1"], j), id=z3.Select(c["id"], j)))
 
 
@@ -1082,9 +1105,15 @@ def _zeros(ex, st, ctx, args, kwargs):
     shape = args[0]
     if isinstance(shape, tuple) and len(shape) == 1 and is_z3(shape[0]) and z3.is_int(shape[0]):
         return SeqVal(z3.K(z3.IntSort(), z3.RealVal(0)), shape[0], "Real")
+    dt = kwargs.get("dtype")
+    if isinstance(dt, ModuleRef):
+        dt = dt.path.split(".")[-1]
+    zero = False if dt in ("bool", bool) else (0 if dt in ("int64", "int32", "int") else Fraction(0))
+    if isinstance(shape, int) and not isinstance(shape, bool):
+        return ConcVec([zero] * shape)
     if isinstance(shape, tuple) and all(isinstance(k, int) for k in shape):
         if len(shape) == 1:
-            return ConcVec([Fraction(0)] * shape[0])
+            return ConcVec([zero] * shape[0])
         if len(shape) == 2:
             return st.new_obj("matrix", "matrix", items=[[Fraction(0)] * shape[1] for _ in range(shape[0])])
     raise Havoc("zeros of shape %r" % (shape,))
@@ -1113,6 +1142,22 @@ def _shape(ex, st, ctx, args, kwargs):
 def _range(ex, st, ctx, args, kwargs):
     if all(isinstance(a, int) for a in args):
         return range(*args)
+    if len(args) == 1 and is_z3(args[0]) and z3.is_int(args[0]):
+        # a symbolic trip count that the path condition confines to a few values: one path per feasible value
+        n = args[0]
+        s = z3.Solver()
+        s.set("timeout", 3000)
+        for a in ex.global_axioms + st.pc:
+            s.add(a)
+        s.add(n > 4)
+        if s.check() == z3.unsat:
+            out = []
+            for k in range(0, 5):
+                s2 = st.fork()
+                s2.assume(n == k if k > 0 else n <= 0)
+                if ex.feasible(s2):
+                    out.append((s2, range(k)))
+            return out
     raise Havoc("symbolic range")
 
 
